@@ -37,6 +37,50 @@ func (c *Ctx) mustPrecede(rule string, fn *ssa.Function, targetDesc string, isTa
 	return len(targets)
 }
 
+// needOnSuccess: in every product state in which fn returns a nil error —
+// `return x, nil`, or a returned variable that is nil on that path (named
+// results, `return v, err` after the error was cleared) — formula(events) holds.
+func (c *Ctx) needOnSuccess(rule string, fn *ssa.Function, evs []Ev, formula func([]bool) bool, req string) {
+	c.saw(fnName(fn))
+	isRet := func(x ssa.Instruction) bool {
+		r, ok := x.(*ssa.Return)
+		return ok && len(r.Results) > 0 && isErrorType(r.Results[len(r.Results)-1].Type())
+	}
+	ex := explore(c.P, fn, 0, evs, isRet)
+	n, k := 0, 0
+	for _, b := range fn.Blocks {
+		r, ok := b.Instrs[len(b.Instrs)-1].(*ssa.Return)
+		if !ok || !isRet(r) {
+			continue
+		}
+		k++
+		success, bad := false, ""
+		for i, st := range ex.at[r] {
+			if !isNilConst(ex.resolveAt(retVal(r, len(r.Results)-1), ex.atSel[r][i])) {
+				continue
+			}
+			success = true
+			if bad == "" && !formula(ex.holdsVec(st)) {
+				bad = "reached with " + ex.describe(st) + " via " + ex.findTrace(b.Index, st, r)
+			}
+		}
+		if !success {
+			continue
+		}
+		n++
+		construct := fmt.Sprintf("successful return #%d of %s", k, fnName(fn))
+		c.Check(bad == "", rule, construct, req, c.P.instrPos(r), bad)
+	}
+	if n == 0 {
+		if k == 0 {
+			c.Undec(rule, "returns of "+fnName(fn), req, c.P.pos(fn.Pos()), "no return with an error result found")
+			return
+		}
+		// every return hands on an error value as it is (return s.Save(k, v)): nothing is turned into success here
+		c.OK(rule, "returns of "+fnName(fn), "no return reports success on its own: the error of the last call is handed on", c.P.pos(fn.Pos()))
+	}
+}
+
 // need: like mustPrecede but an absent target is UNDECIDED (the rule's
 // subject moved) rather than vacuous.
 func (c *Ctx) need(rule string, fn *ssa.Function, targetDesc string, isTarget func(ssa.Instruction) bool, evs []Ev, formula func([]bool) bool, req string) {
